@@ -525,16 +525,47 @@ def exec_misuse(script, w, simenv, tape, opts, feats, foreign=lambda at: None):
             expect_parameter_error(lambda: simenv.engine(backend, opts).run(p), "use-before-measurement-second-run")
         return
     if kind in ("unbound", "unbound_one_of_many"):
-        p = sf.Program(n)
-        with p.context as q:
-            a = p.params("a")
-            ops.Rgate(a * 2 + 0.1) | q[0]
-            if kind == "unbound_one_of_many":
-                b = p.params("b")
-                ops.Dgate(sf.math.tanh(b) ** 2 * 0.3) | q[n - 1]
-        args = {"b": 0.3} if kind == "unbound_one_of_many" else None
+        # daggered primitive gates in front: the failed run must leave the program exactly as it was, so that the same object, run
+        # again with the parameter bound, still behaves like its numeric twin (history: failed run -> successful run)
+        rr = random.Random(int(mis["pick"] * 1e9))
+        gates = [("Dgate", [0.3, 0.4]), ("Sgate", [0.2, 0.3]), ("Rgate", [0.6])]
+        pre = [(g_, list(ps_), rr.random() < 0.7, rr.randrange(n)) for g_, ps_ in rr.sample(gates, rr.randint(1, 3))]
+        sym_dag = rr.random() < 0.6
+        aval, bval = 0.37, 0.3
+
+        def build(numeric):
+            p_ = sf.Program(n)
+            with p_.context as q:
+                a = aval if numeric else p_.params("a")
+                for g_, ps_, dg, m_ in pre:
+                    op = getattr(ops, g_)(*ps_)
+                    (op.H if dg else op) | q[m_]
+                op = ops.Rgate(a * 2 + 0.1)
+                (op.H if sym_dag else op) | q[0]
+                op = ops.Dgate(a * 0.5, 0.2) if not numeric else ops.Dgate(aval * 0.5, 0.2)
+                (op.H if sym_dag else op) | q[n - 1]
+                if kind == "unbound_one_of_many":
+                    b = bval if numeric else p_.params("b")
+                    ops.Dgate((sf.math.tanh(b) if not numeric else math.tanh(b)) ** 2 * 0.3) | q[n - 1]
+            return p_
+
+        p = build(False)
+        args = {"b": bval} if kind == "unbound_one_of_many" else None
         foreign("after_build")
-        expect_parameter_error(lambda: simenv.engine(backend, opts).run(p, args=args), "unbound-free-parameter")
+        if not expect_parameter_error(lambda: simenv.engine(backend, opts).run(p, args=args), "unbound-free-parameter"):
+            return
+        full = {"a": aval, "b": bval} if kind == "unbound_one_of_many" else {"a": aval}
+        try:
+            rs = simenv.engine(backend, opts).run(p, args=full)
+            rt = simenv.engine(backend, opts).run(build(True))
+        except Exception as ex:  # noqa
+            w.violation("misuse", "run-after-rejected-run-raises", {"exc": type(ex).__name__, "msg": str(ex)[:300]}, feats)
+            return
+        d = obs_diff(state_obs(rt.state), state_obs(rs.state), 1e-7 if backend != "fock" else 1e-6)
+        if d:
+            w.violation("substitution", "bound-run-after-rejected-unbound-run vs numeric twin", {"diff": d, "daggered_symbolic_gate": sym_dag}, feats)
+        else:
+            w.probes["rerun_after_parameter_error_matches_twin"] += 1
         return
     if kind == "unknown_name":
         p = sf.Program(n)
